@@ -52,7 +52,7 @@ ENGINE = COMMON + ["vshim.c", "vpki.c", "veng.c"]
 reg("C01",
     title="messaging transports deliver exactly the accepted messages",
     technique="recorded send/receive histories with unique message contents checked against the sender's ledger (exactly-once, order, bytes) under shim-injected short reads/writes and EAGAIN; ASan+UBSan",
-    level_text="Real connections on ux, uxf, tcp, tls and utls (UX leg, TLS leg, fallback) in non-blocking, blocking and mixed mode are driven with random interleavings of send/receive/finish/await while a link-time shim below XCM and below OpenSSL fragments and refuses reads and writes; every message has unique content and an offline oracle compares the receiver's history with the sender's ledger of accepted sends (prefix always, equality after a graceful or quiescent end).",
+    level_text="Real connections on ux, uxf, tcp, tls and utls (UX leg, TLS leg, fallback) in non-blocking, blocking and mixed mode are driven with random interleavings of send/receive/finish/await while a link-time shim below XCM and below OpenSSL fragments and refuses reads and writes; every message has unique content and an offline oracle compares the receiver's history with the sender's ledger of accepted sends (prefix always, equality after a graceful or quiescent end). About 1 % of the receives go into a reserved 4 GiB arena with capacities around 2^31 and 2^32; the last send before a flush+close meets 2-4 forced refusals below; after a clean flush with nothing unread at the sender everything accepted is owed even if the receiver sees the end as an error.",
     level_note="Held on the executions produced; kernel scheduling is not controlled. Floors require header splits, frame splits and mid-frame refusals to have been observed.",
     harness=ENGINE + ["vctl.c", "traffic.c"], exe="h_traffic",
     stages=[dict(variant="asan", cases={"quick": 720, "thorough": 115200}, timeout={"quick": 900, "thorough": 3400})],
@@ -68,7 +68,7 @@ reg("C01",
 reg("C02",
     title="byte-stream transports deliver exactly the accepted bytes",
     technique="recorded byte-stream histories (content keyed by send call) checked as prefix/equality against the accepted ranges under shim-injected short I/O and EAGAIN below XCM and OpenSSL; ASan+UBSan",
-    level_text="btcp and btls connections in non-blocking, blocking and mixed mode; every xcm_send call carries bytes generated from its own call number, so bytes of a refused call are distinguishable from whatever is offered next (same, longer, shorter or different data); the receiver's concatenated stream is compared with the concatenation of the accepted prefixes (prefix at all times, equality after flush+graceful close or quiescence); return-value contract and capacity bound checked on exact-size heap buffers.",
+    level_text="btcp and btls connections in non-blocking, blocking and mixed mode; every xcm_send call carries bytes generated from its own call number, so bytes of a refused call are distinguishable from whatever is offered next (same, longer, shorter or different data); the receiver's concatenated stream is compared with the concatenation of the accepted prefixes (prefix at all times, equality after flush+graceful close or quiescence); return-value contract and capacity bound checked on exact-size heap buffers. Each run also makes single blocking xcm_send calls of more than INT_MAX bytes (2^32+4096 on btcp, 2^31+5 on btls; thorough: two more) from an all-zero reserved area and counts what arrives; receives into a 4 GiB arena; forced refusals below at the last send before flush+close; EINTR and real signals in the blocking modes.",
     level_note="Held on the executions produced. Refusals below OpenSSL after a record was sealed are produced by the shim, not by a real full socket buffer.",
     harness=ENGINE + ["vctl.c", "traffic.c"], exe="h_traffic",
     stages=[dict(variant="asan", cases={"quick": 480, "thorough": 96000}, timeout={"quick": 900, "thorough": 3400})],
@@ -82,7 +82,7 @@ reg("C02",
 reg("C03",
     title="a failed send leaves no trace; a successful one is delivered once",
     technique="send-outcome monitor: counter snapshots around every failing xcm_send, ledger of failed/accepted attempts vs. deliveries, EINTR injected at every blocking wait (shim) and by real signals; ASan+UBSan",
-    level_text="Every xcm_send outcome on every transport and mode is recorded; sends that fail with EAGAIN/EMSGSIZE/EINVAL/EINTR must leave all counters except to_lower unchanged, must never be delivered, and the application model re-sends them (same or different data) so that a hidden acceptance shows up as a duplicate. Sizes 0, max+1, 1 MiB and 2^31+5 are mixed in. EINTR is injected at the n-th blocking poll of a back-pressured blocking sender (n swept over cases) and by real SIGUSR1.",
+    level_text="Every xcm_send outcome on every transport and mode is recorded; sends that fail with EAGAIN/EMSGSIZE/EINVAL/EINTR must leave all counters except to_lower unchanged, must never be delivered, and the application model re-sends them (same or different data) so that a hidden acceptance shows up as a duplicate. Sizes 0, max+1, 1 MiB and 2^31+5 are mixed in. EINTR is injected at the n-th blocking poll of a back-pressured blocking sender (n swept over cases) and by real SIGUSR1. In 60 % of the blocking-sender cases the control interface is on: a raw control client connects while the sender waits and the first accept4 inside the sender's calls fails with EMFILE (a swallowed control failure must not surface as a failed send). Send sizes include 2^32, 2^32+100 and SIZE_MAX.",
     level_note="Held on the executions produced; fault_enumeration over the index of the interrupted wait is sampled per case, not exhaustive.",
     harness=ENGINE + ["vctl.c", "traffic.c"], exe="h_traffic",
     stages=[dict(variant="asan", cases={"quick": 660, "thorough": 39600}, timeout={"quick": 900, "thorough": 3400})],
@@ -111,7 +111,7 @@ EVLOOP = ENGINE + ["vdns.c", "vnet.c", "vctl.c", "evloop.c"]
 reg("C04",
     title="event-loop contract is live (bounded form): no lost wake-ups, blocking calls return",
     technique="executable reactor following the documented await/poll/act protocol; logical-deadlock oracle (no xcm fd readable, no XCM timer armed, resolver idle, goals still open for 500 ms) over ledgers and kernel queue state; blocking calls in threads under a watchdog; shim-injected EAGAIN/short I/O; stub resolver and no-answer/refusing candidates for the resolving and connecting phases; ASan+UBSan",
-    level_text="Agents act only when poll() reports their xcm fd readable (plus the one speculative attempt the documentation allows). Whenever nothing is readable the monitor evaluates the goals from ground truth (ledgers of accepted sends, counters from_app/to_lower, peer closes): if goals are open while no XCM timerfd is armed and the stub resolver has nothing scheduled for 500 ms, nothing can wake the system again and a lost wake-up is reported with per-endpoint kernel queue state. Unbounded eventuality is not decided; this is the bounded restatement of DESIGN.md section 3/C04. Blocking connect/accept/send/receive/close run in threads with a 40 s watchdog.",
+    level_text="Agents act only when poll() reports their xcm fd readable (plus the one speculative attempt the documentation allows). Whenever nothing is readable the monitor evaluates the goals from ground truth (ledgers of accepted sends, counters from_app/to_lower, peer closes): if goals are open while no XCM timerfd is armed and the stub resolver has nothing scheduled for 500 ms, nothing can wake the system again and a lost wake-up is reported with per-endpoint kernel queue state. Unbounded eventuality is not decided; this is the bounded restatement of DESIGN.md section 3/C04. Blocking connect/accept/send/receive/close run in threads with a 40 s watchdog. 40 % of the completed reactor cases add a real back-pressure probe: the peer stops reading until sends are refused and the descriptor has been quiet for 300 ms; input from the peer must then wake an endpoint awaiting SENDABLE|RECEIVABLE and RECEIVABLE, be delivered, and - on TLS transports - a second piece already read ahead by OpenSSL must keep the descriptor readable after a refused send. An answered resolver followed by a second of silence with only a timer armed is a lost wake-up.",
     level_note="Held on the executions produced. Phases covered: resolving (stub: synchronous, after n process calls, after t ms), TCP connecting (accepting, first candidate refusing or not answering with tcp.connect_timeout, happy eyeballs), TLS handshake under injected refusals, ready, peer close.",
     harness=EVLOOP, exe="h_evloop",
     stages=[dict(variant="asan", cases={"quick": 550, "thorough": 33000}, timeout={"quick": 900, "thorough": 3400})],
@@ -126,7 +126,7 @@ reg("C04",
 reg("C16",
     title="readiness is sound: one stable descriptor that is quiet when idle",
     technique="readiness probes at engine-confirmed quiescent points of reactor-driven histories: poll(xcm_fd, POLLIN|POLLOUT|POLLPRI, 0) sampled for each awaited condition, descriptor identity tracked through the shim's ledger; ASan+UBSan",
-    level_text="After a reactor-driven history (all transports, partial I/O plans) has delivered everything and xcm_finish succeeded on both ends, each endpoint is probed: condition 0 and RECEIVABLE-after-EAGAIN must stay unreadable over several samples, SENDABLE and R|S must be readable on the immediately following poll, data waiting in the kernel buffer or already decrypted inside the TLS layer must make RECEIVABLE readable at once, the server socket must be quiet with an empty queue; every poll must report nothing but POLLIN; xcm_fd must return the creation-time number and the shim must still show it as the epoll instance XCM created.",
+    level_text="After a reactor-driven history (all transports, partial I/O plans) has delivered everything and xcm_finish succeeded on both ends, each endpoint is probed: condition 0 and RECEIVABLE-after-EAGAIN must stay unreadable over several samples, SENDABLE and R|S must be readable on the immediately following poll, data waiting in the kernel buffer or already decrypted inside the TLS layer must make RECEIVABLE readable at once, the server socket must be quiet with an empty queue; every poll must report nothing but POLLIN; xcm_fd must return the creation-time number and the shim must still show it as the epoll instance XCM created. 30 % of the cases run with the control interface on: at the quiescent point two control clients per socket attach, one or two more queue, all leave in a random order; once the owner has served them every socket must be quiet again.",
     level_note="One spurious wake-up that a following EAGAIN receive silences is tolerated (TLS: ssl_condition==0 after a write, TLS 1.3 tickets), persistence is flagged.",
     harness=EVLOOP, exe="h_evloop",
     stages=[dict(variant="asan", cases={"quick": 550, "thorough": 44000}, timeout={"quick": 900, "thorough": 3400})],
@@ -186,7 +186,7 @@ reg("C06",
     title="terminal conditions are reported faithfully and stick",
     level="fault_enumeration",
     technique="fault enumeration with a terminal-state tracker: errno substituted at the n-th recv/send/SO_ERROR below XCM and OpenSSL (errno x index x first observing call), an in-process cutting proxy severing (FIN) or resetting (RST) the stream after exactly n bytes (every offset of handshake, headers, payloads), orderly closes and failing establishments; prefix oracle on deliveries; ASan+UBSan",
-    level_text="Enumerated over (transport x {recv,send} x index x {ECONNRESET, ETIMEDOUT, EHOSTUNREACH, ENETUNREACH, ECONNREFUSED, EPIPE} x first observer in {send, receive, finish} x frame pending or not) for injected errnos, over byte offsets of the real wire stream (TLS handshake flights included) x {FIN, RST} x direction for peer death through a cutting proxy between two XCM endpoints, plus orderly closes on all eight transports and refused/unreachable/timed-out establishments. On every endpoint a tracker takes the first terminal report and then demands: no success ever again; 0 from receive and EPIPE from send after an observed close; on TCP-based transports the same errno from every later send, receive and finish; the call during which the injected error occurred reports it; deliveries are always a prefix of what the peer's sends accepted (no partial message).",
+    level_text="Enumerated over (transport x {recv,send} x index x {ECONNRESET, ETIMEDOUT, EHOSTUNREACH, ENETUNREACH, ECONNREFUSED, EPIPE} x first observer in {send, receive, finish} x frame pending or not) for injected errnos, over byte offsets of the real wire stream (TLS handshake flights included) x {FIN, RST} x direction for peer death through a cutting proxy between two XCM endpoints, plus orderly closes on all eight transports and refused/unreachable/timed-out establishments. On every endpoint a tracker takes the first terminal report and then demands: no success ever again; 0 from receive and EPIPE from send after an observed close; on TCP-based transports the same errno from every later send, receive and finish; the call during which the injected error occurred reports it; deliveries are always a prefix of what the peer's sends accepted (no partial message). 30 % of the TLS-based fault and orderly-close cases are preceded by a TLS protocol error on another connection handled by the same thread.",
     level_note="Quick samples the product, thorough walks the offsets densely (stride 7919 mod stream length over the case index). The kernel's production of the errno is replaced by substitution at the call boundary; XCM's reaction is what is observed.",
     harness=STATES + ["c06.c"],
     stages=[dict(variant="asan", cases={"quick": 2400, "thorough": 60000}, timeout={"quick": 900, "thorough": 3400})],
@@ -201,7 +201,7 @@ reg("C08",
     title="no resource leaks, stray closes or aborts on any lifecycle path",
     level="fault_enumeration",
     technique="fault enumeration over the resource-creating system calls of API scenarios (counting run, then one forked run per (call, index, errno) with the call failing), real descriptor exhaustion by RLIMIT_NOFILE sweep, eventfd-pool bursts, fork + xcm_cleanup at every scenario step; monitors: /proc/self/fd diff against a baseline, LeakSanitizer at exit of every case, descriptor ledger with planted decoys (stray close/epoll_ctl/setsockopt/shutdown on descriptors XCM did not create, EBADF closes), directory listings of UXF and control paths, child death; ASan+UBSan+LSan",
-    level_text="Scenarios = {server, connect, accept, one message each way, close in varying order} on ux, uxf, tcp, tls, utls, btcp, btls, in the flavours plain, DNS name (stub resolver), xcm.local_addr, TLS credentials by value, refused creation attribute (err_close branch), refused connect, address in use, control interface enabled, accept on an empty queue. A counting run lists how often each of socket, accept4, epoll_create1, eventfd, timerfd_create, connect, bind, listen, setsockopt, fopen is called; then every (scenario, call, index 1..n+1, errno) is a forked case in which that call fails. Other families: RLIMIT_NOFILE set to highest-open-descriptor+1+j for j = 0..29 (each j makes a different call the first to hit EMFILE), bursts of >300 sockets (eventfd pool), fork at step k with xcm_cleanup of every socket in the child (child: descriptor table back to baseline, no epoll_ctl/unlink/send/shutdown, LSan clean; owner: traffic continues, files remain). After each case, with everything closed: descriptor table equals the baseline, no alarm from the ledger, decoys intact, UXF and control directories empty, LeakSanitizer silent, process alive.",
+    level_text="Scenarios = {server, connect, accept, one message each way, close in varying order} on ux, uxf, tcp, tls, utls, btcp, btls, in the flavours plain, DNS name (stub resolver), xcm.local_addr, TLS credentials by value, refused creation attribute (err_close branch), refused connect, address in use, control interface enabled, accept on an empty queue. A counting run lists how often each of socket, accept4, epoll_create1, eventfd, timerfd_create, connect, bind, listen, setsockopt, fopen is called; then every (scenario, call, index 1..n+1, errno) is a forked case in which that call fails. Other families: RLIMIT_NOFILE set to highest-open-descriptor+1+j for j = 0..29 (each j makes a different call the first to hit EMFILE), bursts of >300 sockets (eventfd pool), fork at step k with xcm_cleanup of every socket in the child (child: descriptor table back to baseline, no epoll_ctl/unlink/send/shutdown, LSan clean; owner: traffic continues, files remain). After each case, with everything closed: descriptor table equals the baseline, no alarm from the ledger, decoys intact, UXF and control directories empty, LeakSanitizer silent, process alive. Flavours added: blocking accept with empty wake-ups (control clients attaching, accept4 reporting EAGAIN) with the client in a helper process; connect kept pending by a listener that never answers (tcp.connect_timeout 1.2 s), with every armed XCM timerfd compared across a forked child's xcm_cleanup; control directory names of 84..107 characters.",
     level_note="Single faults (pairs of faults are not enumerated). The heap oracle is LeakSanitizer's reachability at exit per forked case, not allocator statistics.",
     harness=STATES + ["c08.c"],
     stages=[dict(variant="asan", cases={"quick": 3200, "thorough": 48000}, timeout={"quick": 900, "thorough": 3400}, leaks=True)],
@@ -215,7 +215,7 @@ reg("C08",
 reg("C13",
     title="name resolution and multi-address connect follow the selected algorithm",
     technique="stub resolver substituted for c-ares at link time (answer list, delivery time, failure, silence chosen per case); loopback topology of accepting XCM servers, refusing addresses and listeners with a full accept queue (no answer); the shim's connect() log (order, time) and the API outcome checked against an oracle computed from list x assignment x algorithm; ASan+UBSan with stack-use-after-return detection",
-    level_text="Lists of 1..40 IPv4/IPv6 loopback addresses (v4-mapped and ::1 for IPv6) in any order, each accepting, refusing or not answering, delivered by the stub resolver synchronously, after n process calls, after t ms, never, or as a failure status; algorithms single, sequential, happy_eyeballs; with and without xcm.local_addr; small tcp.connect_timeout and dns.timeout; tcp, tls, utls, btcp, btls; the outcome observed first through finish, send or receive. Oracle: connect() is called only on addresses among the first 32 (single: the first), in list order (per family for happy eyeballs, IPv4 not before 200 ms when IPv6 candidates exist), stopping at the first that accepts; the connection comes up iff a usable address accepts, to that address (xcm_remote_addr), from the configured source; otherwise the errno of the last failed attempt (ECONNREFUSED/ETIMEDOUT), ENOENT for resolver failure or silence beyond dns.timeout, sticky, within time bounds (slack 1 s + 50 %); xcm_server on an unresolvable name fails with ENOENT.",
+    level_text="Lists of 1..40 IPv4/IPv6 loopback addresses (v4-mapped and ::1 for IPv6) in any order, each accepting, refusing or not answering, delivered by the stub resolver synchronously, after n process calls, after t ms, never, or as a failure status; algorithms single, sequential, happy_eyeballs; with and without xcm.local_addr; small tcp.connect_timeout and dns.timeout; tcp, tls, utls, btcp, btls; the outcome observed first through finish, send or receive. Oracle: connect() is called only on addresses among the first 32 (single: the first), in list order (per family for happy eyeballs, IPv4 not before 200 ms when IPv6 candidates exist), stopping at the first that accepts; the connection comes up iff a usable address accepts, to that address (xcm_remote_addr), from the configured source; otherwise the errno of the last failed attempt (ECONNREFUSED/ETIMEDOUT), ENOENT for resolver failure or silence beyond dns.timeout, sticky, within time bounds (slack 1 s + 50 %); xcm_server on an unresolvable name fails with ENOENT. A quarter of the cases whose (time-delivered) answer arrives well inside dns.timeout take their first look at the socket only after dns.timeout.",
     level_note="c-ares' own ordering and retry logic are outside the judged system (the stub answers instead). Time bounds carry a slack of 1 s + 50 %.",
     harness=STATES + ["c13.c"],
     stages=[dict(variant="asan", cases={"quick": 1600, "thorough": 30000}, timeout={"quick": 900, "thorough": 3400})],
@@ -243,7 +243,7 @@ reg("C11",
 reg("C09",
     title="TLS never fails open",
     technique="differential testing of real handshakes against a policy evaluator computed from generated-PKI metadata (trust root, validity, revocation, EKU vs TLS role, names): per-side outcome monitor (finish, deliveries, bytes reaching the peer's application, errno) over policy x credential-kind x where-set x by-file/by-value cells; ASan+UBSan",
-    level_text="One cell = one handshake between XCM endpoints on tls, btls or utls-over-TLS. Policies {tls.auth, tls.check_time, tls.check_crl (valid or expired CRL), tls.verify_peer_name with tls.peer_names or the address host name, trust bundle root A or B, TLS roles reversed via tls.client} are drawn per side and set in the connect map, on the server socket or in an accept map overriding a lax or a strict server socket (credentials and trust anchors included, by file or by value); the presented credentials walk over 12 generated kinds (valid, untrusted root, via trusted/untrusted/revoked/expired intermediate, expired, not yet valid, revoked, wrong name, serverAuth-only, clientAuth-only). For each side whose policy does not admit the peer: xcm_finish never 0, nothing delivered, none of its application bytes at the peer (both sides send speculatively throughout), errno EPROTO. Cells admitted by both sides must establish and carry a message each way (shortfall counted, floored). Five kinds of inconsistent policy must be refused with EINVAL at creation.",
+    level_text="One cell = one handshake between XCM endpoints on tls, btls or utls-over-TLS. Policies {tls.auth, tls.check_time, tls.check_crl (valid or expired CRL), tls.verify_peer_name with tls.peer_names or the address host name, trust bundle root A or B, TLS roles reversed via tls.client} are drawn per side and set in the connect map, on the server socket or in an accept map overriding a lax or a strict server socket (credentials and trust anchors included, by file or by value); the presented credentials walk over 12 generated kinds (valid, untrusted root, via trusted/untrusted/revoked/expired intermediate, expired, not yet valid, revoked, wrong name, serverAuth-only, clientAuth-only). For each side whose policy does not admit the peer: xcm_finish never 0, nothing delivered, none of its application bytes at the peer (both sides send speculatively throughout), errno EPROTO. Cells admitted by both sides must establish and carry a message each way (shortfall counted, floored). Five kinds of inconsistent policy must be refused with EINVAL at creation. Inconsistent policies are also split: the demanding half on the server socket, tls.auth=false in the accept map; or names expected from a host name in the address.",
     level_note="OpenSSL's path validation is trusted; the evaluator models what XCM asks of it. Cells whose verdict would depend on anything else (signature algorithms, path length) are not generated.",
     harness=STATES + ["c09.c"],
     stages=[dict(variant="asan", cases={"quick": 3000, "thorough": 80000}, timeout={"quick": 900, "thorough": 3400})],
@@ -269,7 +269,7 @@ reg("C18",
 reg("C14",
     title="the control interface is passive and safe",
     technique="differential monitor: replies obtained through a raw SOCK_SEQPACKET control client and through libxcmctl are compared with xcm_attr_get / xcm_attr_get_all taken in-process in the same quiescent instant; malformed-request generator; every reply byte scanned for the body of tls.key; owner's data path re-checked; directory listing after close; ASan+UBSan in the owner",
-    level_text="Owners are the server, client and accepted sockets of every transport with the control interface on, in four flavours (plain, by-value chain credentials of several kB, peer certificates with 1/12/40/80 subject alternative names, credential paths beyond 100 characters). Sessions: raw sessions starting with get_all or with get (both orders), named gets over present, absent, sensitive, oversized and syntactically odd names; libxcmctl sessions in a helper thread (xcmc_attr_get and xcmc_attr_get_all in both orders); eight kinds of malformed request (short, one byte short, too long, unknown type, a response as request, unterminated 64-byte name, no NUL in the whole message, random bytes); storms of 3-5 simultaneous sessions (limit is 2) half of which leave before the reply. Every reply is compared with the in-process value (type, length, bytes, or the same errno), get_all replies must be typed get_all_attr_cfm, hold no entry longer than its field, no tls.key, and omit nothing that fits unless full; a message is sent over the owner's connection after every fourth round; the control directory must be empty after close.",
+    level_text="Owners are the server, client and accepted sockets of every transport with the control interface on, in four flavours (plain, by-value chain credentials of several kB, peer certificates with 1/12/40/80 subject alternative names, credential paths beyond 100 characters). Sessions: raw sessions starting with get_all or with get (both orders), named gets over present, absent, sensitive, oversized and syntactically odd names; libxcmctl sessions in a helper thread (xcmc_attr_get and xcmc_attr_get_all in both orders); eight kinds of malformed request (short, one byte short, too long, unknown type, a response as request, unterminated 64-byte name, no NUL in the whole message, random bytes); storms of 3-5 simultaneous sessions (limit is 2) half of which leave before the reply. Every reply is compared with the in-process value (type, length, bytes, or the same errno), get_all replies must be typed get_all_attr_cfm, hold no entry longer than its field, no tls.key, and omit nothing that fits unless full; a message is sent over the owner's connection after every fourth round; the control directory must be empty after close. Also: pipelined sessions (14-27 requests written before the first reply is read, replies checked by position) and an event-driven owner (calls only when xcm_fd is readable) that must be woken for a newcomer after one of two sessions left.",
     level_note="For utls the control sockets belong to sub-sockets that the public API cannot address: only the generic rules (reply type, key scan, survival, data path, files) apply there.",
     harness=STATES + ["c14.c"],
     stages=[dict(variant="asan", cases={"quick": 640, "thorough": 16000}, timeout={"quick": 900, "thorough": 3400})],
@@ -295,7 +295,7 @@ reg("C15",
 reg("C20",
     title="xcmrelay is transparent",
     technique="end-to-end delivery oracle (unique message/byte contents, sender ledgers) across the real xcmrelay process (ASan build) for every leg pair of equal service type; close-order oracle; relay liveness (waitpid, serves again); LD_PRELOAD shim in the relay producing partial-then-refused writes",
-    level_text="The relay binary built from the working tree runs as a child process between 1-8 harness clients and a harness server on every pair of legs of equal service (ux, uxf, tcp, tls, utls; btcp, btls). Both ends of every relayed connection send unique-content messages (1 byte to 65535 bytes) at the same time, in mixed, burst-then-close and stalled-reader patterns; then one side finishes and closes and the other must receive everything that side had accepted, then the orderly close; deliveries in both directions are checked against the senders' ledgers (order, exactly once, bytes). The relay must still run afterwards and relay a fresh connection. In half of the cases the relay runs with an LD_PRELOAD shim that accepts TCP writes in part and refuses the next one, as a full kernel buffer does in the middle of a frame. Sanitizer reports of the relay process are collected from its stderr.",
+    level_text="The relay binary built from the working tree runs as a child process between 1-8 harness clients and a harness server on every pair of legs of equal service (ux, uxf, tcp, tls, utls; btcp, btls). Both ends of every relayed connection send unique-content messages (1 byte to 65535 bytes) at the same time, in mixed, burst-then-close and stalled-reader patterns; then one side finishes and closes and the other must receive everything that side had accepted, then the orderly close; deliveries in both directions are checked against the senders' ledgers (order, exactly once, bytes). The relay must still run afterwards and relay a fresh connection. In half of the cases the relay runs with an LD_PRELOAD shim that accepts TCP writes in part and refuses the next one, as a full kernel buffer does in the middle of a frame. Sanitizer reports of the relay process are collected from its stderr. Every case process uses loopback addresses of its own for the relay's front and back; in a quarter of the cases the server behind the relay stops listening for a moment while its connections live (a newcomer is dropped, nothing else may change).",
     level_note="Timing of the two sides is what the scheduler and the kernel produce; the relay's internal event order is not controlled.",
     harness=STATES + ["c20.c"], preload=["vpreload.c"],
     stages=[dict(variant="asan", cases={"quick": 480, "thorough": 36000}, timeout={"quick": 900, "thorough": 3400})],
